@@ -165,6 +165,21 @@ def run(e: Engine, rep: Report):
              'KeyError leaves the arm and the message stays in storage with '
              'nobody scheduled to attempt it)')
     r126(e, rep)
+    rep.rule('R1.27', '= C03-R3.3: the settled marks of a partial round are '
+             'persisted (attempted) before the message becomes dispatchable '
+             'again - also when the re-queue sits in a helper: a retry that '
+             'is due at once on a yielding backend otherwise loads the '
+             'un-reduced envelope, and the positions its round marks are '
+             'applied to the reduced list (an outstanding recipient is '
+             'struck off and never delivered or bounced)')
+    sub = Report(rep.prop, rep.tier, rep.repo)
+    _c03.r33(e, sub)
+    for o in sub.obls:
+        rep.add('R1.27', o.where, o.text, o.status, o.what, o.loc, o.witness,
+                o.nontrivial, o.reason)
+    rep.errors += sub.errors
+    rep.evaluations += sub.evaluations
+    rep.functions |= sub.functions
     rep.floor('R1.2', 5, 'removal sites')
     rep.floor('R1.5', 3, 'backend uses of the index argument')
 
